@@ -1373,7 +1373,58 @@ fn b64(data: &[u8]) -> String {
     v
 }
 
+/// `YYYY-MM-DDTHH:MM:SS.000Z`
+fn iso_instant(unix: i64) -> String {
+    let t = amz_timestamp(unix);
+    format!("{}-{}-{}T{}:{}:{}.000Z", &t[0..4], &t[4..6], &t[6..8], &t[9..11], &t[11..13], &t[13..15])
+}
+
+fn json_str(s: &str) -> String {
+    let mut o = String::from("\"");
+    for ch in s.chars() {
+        match ch {
+            '"' => o.push_str("\\\""),
+            '\\' => o.push_str("\\\\"),
+            c => o.push(c),
+        }
+    }
+    o.push('"');
+    o
+}
+
+/// a condition on a form field, as it will be rendered
+#[derive(Clone)]
+enum PCond {
+    /// exact match; `array` chooses `["eq","$f","v"]` over `{"f":"v"}`
+    Eq { field: String, value: String, array: bool },
+    Starts { field: String, prefix: String },
+    Range { lo: usize, hi: usize },
+    Raw(String),
+}
+
+fn render_cond(c: &PCond) -> String {
+    match c {
+        PCond::Eq { field, value, array: true } => format!("[\"eq\",{},{}]", json_str(&format!("${field}")), json_str(value)),
+        PCond::Eq { field, value, array: false } => format!("{{{}:{}}}", json_str(field), json_str(value)),
+        PCond::Starts { field, prefix } => format!("[\"starts-with\",{},{}]", json_str(&format!("${field}")), json_str(prefix)),
+        PCond::Range { lo, hi } => format!("[\"content-length-range\",{lo},{hi}]"),
+        PCond::Raw(t) => t.clone(),
+    }
+}
+
+fn render_policy(expiration: &str, conds: &[PCond], sp: &str) -> String {
+    format!(
+        "{{{sp}\"expiration\":{sp}{},{sp}\"conditions\":{sp}[{}]{sp}}}",
+        json_str(expiration),
+        conds.iter().map(render_cond).collect::<Vec<_>>().join(&format!(",{sp}"))
+    )
+}
+
+/// POST forms. Every form is correctly signed unless the variant says otherwise; the policy of the base form covers
+/// every field and holds (a compliant control), the `policy-*` variants break exactly one rule of the AWS POST-policy
+/// document while keeping the signature right, the `mut-*` / `del-*` / `dup-*` variants attack the signature half.
 pub fn generate_post(rng: &mut Rng, n: u64, emit: &mut dyn FnMut(Vec<String>)) {
+    let now = real_now();
     let mut produced = 0u64;
     while produced < n {
         let sink = if rng.chance(1, 4) { "backend" } else { "route" };
@@ -1381,43 +1432,82 @@ pub fn generate_post(rng: &mut Rng, n: u64, emit: &mut dyn FnMut(Vec<String>)) {
         let (ak, sk) = AUTH_TABLE[akx];
         let unix = 1_369_353_600 + rng.below(500_000_000) as i64;
         let ts = amz_timestamp(unix);
-        let date8 = &ts[..8];
+        let date8 = ts[..8].to_owned();
         let region = rng.pick(&["us-east-1", "eu-west-2"]);
         let key = format!("up/{}", gen_text(rng, &["a", "b", "é", " ", "+", "0"], 1, 5));
         let cred = format!("{ak}/{date8}/{region}/s3/aws4_request");
-        let expiration = if rng.chance(1, 2) { "2000-01-01T00:00:00Z" } else { "2099-01-01T00:00:00Z" };
-        let policy_json = format!(
-            "{{\"expiration\":\"{expiration}\",\"conditions\":[{{\"bucket\":\"bkt\"}},[\"starts-with\",\"$key\",\"up/\"],{{\"x-amz-credential\":\"{cred}\"}},{{\"x-amz-date\":\"{ts}\"}},{{\"x-amz-algorithm\":\"AWS4-HMAC-SHA256\"}}{}]}}",
-            " ".repeat(rng.below(3) as usize)
-        );
-        let policy = b64(policy_json.as_bytes());
-        let sig = hexs(&hmac_sha256(&signing_key(sk, date8, region, "s3"), policy.as_bytes()));
-        let mut form: Vec<(String, String)> = vec![
-            ("key".into(), key),
-            ("policy".into(), policy.clone()),
-            ("x-amz-algorithm".into(), "AWS4-HMAC-SHA256".into()),
-            ("x-amz-credential".into(), cred.clone()),
-            ("x-amz-date".into(), ts.clone()),
-            ("x-amz-signature".into(), sig.clone()),
-        ];
-        if rng.chance(1, 2) {
-            form.push(("x-amz-meta-note".into(), rng.pick(&["n", "two words", "x  y"]).to_owned()));
-        }
-        if rng.chance(1, 3) {
-            form.push(("success_action_status".into(), "201".into()));
-        }
-        shuffle(rng, &mut form);
-        if rng.chance(1, 3) {
-            for f in &mut form {
-                f.0 = random_case(rng, &f.0);
-            }
-        }
         let file = {
             let len = rng.below(80) as usize;
             rng.bytes(len)
         };
-        let make = |tag: &str, form: &[(String, String)], table: Vec<(Vec<u8>, Vec<u8>)>, ctype: Option<String>| -> Case {
-            Case {
+        // the fields other than policy and signature
+        let mut plain: Vec<(String, String)> = vec![
+            ("key".into(), key.clone()),
+            ("x-amz-algorithm".into(), "AWS4-HMAC-SHA256".into()),
+            ("x-amz-credential".into(), cred.clone()),
+            ("x-amz-date".into(), ts.clone()),
+        ];
+        if rng.chance(1, 2) {
+            plain.push(("Content-Type".into(), rng.pick(&["text/plain", "image/png"]).to_owned()));
+        }
+        if rng.chance(1, 2) {
+            plain.push(("x-amz-meta-note".into(), rng.pick(&["n", "two words", "x  y"]).to_owned()));
+        }
+        if rng.chance(1, 3) {
+            plain.push(("success_action_status".into(), "201".into()));
+        }
+        if rng.chance(1, 3) {
+            // needs no condition
+            plain.push(("x-ignore-trace".into(), "t-1".into()));
+        }
+        // a policy that covers every field and holds
+        let mut conds: Vec<PCond> = vec![PCond::Eq { field: "bucket".into(), value: "bkt".into(), array: rng.chance(1, 2) }];
+        for (n, v) in &plain {
+            if n.starts_with("x-ignore-") {
+                continue;
+            }
+            let field = if rng.chance(1, 3) { random_case(rng, n) } else { n.clone() };
+            if n == "key" {
+                conds.push(match rng.below(3) {
+                    0 => PCond::Eq { field, value: v.clone(), array: rng.chance(1, 2) },
+                    1 => PCond::Starts { field, prefix: String::new() },
+                    _ => PCond::Starts { field, prefix: "up/".into() },
+                });
+            } else if rng.chance(1, 4) {
+                let cut = v.char_indices().map(|(i, _)| i).nth(rng.below(3) as usize).unwrap_or(0);
+                conds.push(PCond::Starts { field, prefix: v[..cut].to_owned() });
+            } else {
+                conds.push(PCond::Eq { field, value: v.clone(), array: rng.chance(1, 2) });
+            }
+        }
+        if rng.chance(1, 2) {
+            let (lo, hi) = if rng.chance(1, 3) { (file.len(), file.len()) } else { (file.len().saturating_sub(rng.below(5) as usize), file.len() + rng.below(1000) as usize) };
+            conds.push(PCond::Range { lo, hi });
+        }
+        let expiration = match rng.below(3) {
+            0 => "2099-01-01T00:00:00Z".to_owned(),
+            1 => iso_instant(now + 3600),
+            _ => iso_instant(now + 86400),
+        };
+        let sp = rng.pick(&["", "", " ", "\n  "]);
+        let shuffle_seed = rng.next();
+        let case_seed = rng.next();
+        // sign a policy text and assemble the form
+        let assemble = |tag: &str, plain: &[(String, String)], policy_text: &str, table: Vec<(Vec<u8>, Vec<u8>)>, file: &[u8]| -> (Case, Vec<(String, String)>) {
+            let policy = b64(policy_text.as_bytes());
+            let sig = hexs(&hmac_sha256(&signing_key(sk, &date8, region, "s3"), policy.as_bytes()));
+            let mut form: Vec<(String, String)> = plain.to_vec();
+            form.push(("policy".into(), policy));
+            form.push(("x-amz-signature".into(), sig));
+            let mut r = Rng(shuffle_seed | 1);
+            shuffle(&mut r, &mut form);
+            let mut r = Rng(case_seed | 1);
+            if r.chance(1, 3) {
+                for f in &mut form {
+                    f.0 = random_case(&mut r, &f.0);
+                }
+            }
+            let case = Case {
                 kind: format!("post.{tag}"),
                 sink: sink.to_owned(),
                 http2: false,
@@ -1427,77 +1517,158 @@ pub fn generate_post(rng: &mut Rng, n: u64, emit: &mut dyn FnMut(Vec<String>)) {
                 query: None,
                 headers: vec![
                     (b"host".to_vec(), b"localhost:8014".to_vec()),
-                    (b"content-type".to_vec(), ctype.unwrap_or_else(|| format!("multipart/form-data; boundary={BOUNDARY}")).into_bytes()),
+                    (b"content-type".to_vec(), format!("multipart/form-data; boundary={BOUNDARY}").into_bytes()),
                 ],
                 stream: false,
                 body: Vec::new(),
                 form: form.iter().map(|(n, v)| (n.as_bytes().to_vec(), v.as_bytes().to_vec())).collect(),
-                file: file.clone(),
+                file: file.to_vec(),
                 boundary: BOUNDARY.as_bytes().to_vec(),
                 table,
-            }
+            };
+            (case, form)
         };
-        let mut all = vec![make("valid", &form, table(), None)];
-        let find = |form: &[(String, String)], name: &str| form.iter().position(|(n, _)| n.eq_ignore_ascii_case(name)).unwrap();
-        let mut with = |tag: &str, name: &str, f: &dyn Fn(&str) -> String| {
-            let mut fm = form.clone();
-            let i = find(&fm, name);
-            fm[i].1 = f(&fm[i].1);
-            all.push(make(tag, &fm, table(), None));
+        let base_text = render_policy(&expiration, &conds, sp);
+        let (valid, form) = assemble("valid", &plain, &base_text, table(), &file);
+        let mut all: Vec<Case> = Vec::new();
+
+        // ---- policy half: compliant controls
+        let with_conds = |f: &dyn Fn(&mut Vec<PCond>)| -> Vec<PCond> {
+            let mut c = conds.clone();
+            f(&mut c);
+            c
         };
-        // policy: another validly encoded policy, a flipped character, broken base64
-        let other_policy = b64(policy_json.replace("up/", "other/").as_bytes());
-        with("mut-policy.other-document", "policy", &|_| other_policy.clone());
-        with("mut-policy.char", "policy", &|v| { let mut b = v.as_bytes().to_vec(); b[3] = if b[3] == b'A' { b'B' } else { b'A' }; String::from_utf8(b).unwrap() });
-        with("mut-policy.not-base64", "policy", &|v| format!("{}*", &v[..v.len() - 1]));
-        with("mut-policy.unpadded", "policy", &|v| v.trim_end_matches('=').to_owned() + "A");
-        for class in 0..4u64 {
-            let r = std::cell::RefCell::new(Rng(rng.next() | 1));
-            with(&format!("mut-signature.{}", ["hexchar", "uppercase", "truncate", "extend"][class as usize]), "x-amz-signature", &|v| flip_hex_char(&mut r.borrow_mut(), v, class));
+        let force = |array: bool| with_conds(&|c| for x in c.iter_mut() { if let PCond::Eq { array: a, .. } = x { *a = array; } });
+        all.push(assemble("policy-ok.eq-array-form", &plain, &render_policy(&expiration, &force(true), sp), table(), &file).0);
+        all.push(assemble("policy-ok.eq-object-form", &plain, &render_policy(&expiration, &force(false), sp), table(), &file).0);
+        all.push(assemble("policy-ok.key-any", &plain, &render_policy(&expiration, &with_conds(&|c| { c.retain(|x| !matches!(x, PCond::Eq { field, .. } | PCond::Starts { field, .. } if field.eq_ignore_ascii_case("key"))); c.push(PCond::Starts { field: "key".into(), prefix: String::new() }); }), sp), table(), &file).0);
+        all.push(assemble("policy-ok.exact-length", &plain, &render_policy(&expiration, &with_conds(&|c| { c.retain(|x| !matches!(x, PCond::Range { .. })); c.push(PCond::Range { lo: file.len(), hi: file.len() }); }), sp), table(), &file).0);
+        all.push(assemble("policy-ok.expires-in-an-hour", &plain, &render_policy(&iso_instant(now + 3600), &conds, sp), table(), &file).0);
+        {
+            let mut pl = plain.clone();
+            pl.push(("x-ignore-extra".into(), "free".into()));
+            all.push(assemble("policy-ok.x-ignore-field", &pl, &base_text, table(), &file).0);
         }
-        let other_ak = AUTH_TABLE[1 - akx].0;
-        let next_day = amz_timestamp(unix + 86400)[..8].to_owned();
-        with("mut-credential.other-access-key", "x-amz-credential", &|v| v.replacen(ak, other_ak, 1));
-        with("mut-credential.unknown-access-key", "x-amz-credential", &|v| format!("X{}", &v[1..]));
-        with("mut-credential.date-other-day", "x-amz-credential", &|v| v.replacen(date8, &next_day, 1));
-        with("mut-credential.region", "x-amz-credential", &|v| v.replacen(region, "ap-south-1", 1));
-        with("mut-credential.service", "x-amz-credential", &|v| v.replacen("/s3/", "/sts/", 1));
-        with("mut-credential.malformed", "x-amz-credential", &|v| v.replacen("aws4_request", "aws4", 1));
-        with("mut-date.other-second", "x-amz-date", &|_| amz_timestamp(unix + 1));
-        with("mut-date.other-day", "x-amz-date", &|_| amz_timestamp(unix + 86400));
-        with("mut-date.malformed", "x-amz-date", &|v| v.replace('T', "t"));
-        with("mut-algorithm", "x-amz-algorithm", &|_| "AWS4-HMAC-SHA512".to_owned());
+        // ---- (a) expired
+        all.push(assemble("policy-expired.1s", &plain, &render_policy(&iso_instant(now - 1), &conds, sp), table(), &file).0);
+        all.push(assemble("policy-expired.1day", &plain, &render_policy(&iso_instant(now - 86400), &conds, sp), table(), &file).0);
+        all.push(assemble("policy-expired.year2000", &plain, &render_policy("2000-01-01T00:00:00Z", &conds, sp), table(), &file).0);
+        all.push(assemble("policy-expired.no-conditions", &plain, &render_policy("2000-01-01T00:00:00.000Z", &[], sp), table(), &file).0);
+        // ---- (b) exact match violated
+        let replace_field = |name: &str, new: PCond| with_conds(&|c| { c.retain(|x| !matches!(x, PCond::Eq { field, .. } | PCond::Starts { field, .. } if field.eq_ignore_ascii_case(name))); c.push(new.clone()); });
+        all.push(assemble("policy-eq-violated.key", &plain, &render_policy(&expiration, &replace_field("key", PCond::Eq { field: "key".into(), value: "up/another-name".into(), array: rng.chance(1, 2) }), sp), table(), &file).0);
+        all.push(assemble("policy-eq-violated.bucket", &plain, &render_policy(&expiration, &replace_field("bucket", PCond::Eq { field: "bucket".into(), value: "another-bucket".into(), array: rng.chance(1, 2) }), sp), table(), &file).0);
+        {
+            // Content-Type / x-amz-meta-*: make sure the field is in the form, demand another value
+            for (tag, name, demanded) in [("content-type", "Content-Type", "application/pdf"), ("meta", "x-amz-meta-note", "another note")] {
+                let mut pl = plain.clone();
+                if !pl.iter().any(|(n, _)| n == name) {
+                    pl.push((name.to_owned(), "something".to_owned()));
+                }
+                let cs = replace_field(name, PCond::Eq { field: name.to_owned(), value: demanded.to_owned(), array: rng.chance(1, 2) });
+                all.push(assemble(&format!("policy-eq-violated.{tag}"), &pl, &render_policy(&expiration, &cs, sp), table(), &file).0);
+            }
+        }
+        // ---- (c) starts-with violated
+        all.push(assemble("policy-starts-with-violated.key", &plain, &render_policy(&expiration, &replace_field("key", PCond::Starts { field: "key".into(), prefix: "other/".into() }), sp), table(), &file).0);
+        {
+            let mut pl = plain.clone();
+            if !pl.iter().any(|(n, _)| n == "Content-Type") {
+                pl.push(("Content-Type".into(), "text/plain".into()));
+            }
+            let cs = replace_field("Content-Type", PCond::Starts { field: "Content-Type".into(), prefix: "video/".into() });
+            all.push(assemble("policy-starts-with-violated.content-type", &pl, &render_policy(&expiration, &cs, sp), table(), &file).0);
+        }
+        // ---- (d) content-length-range violated
+        let range = |lo: usize, hi: usize| with_conds(&|c| { c.retain(|x| !matches!(x, PCond::Range { .. })); c.push(PCond::Range { lo, hi }); });
+        all.push(assemble("policy-length.file-shorter-than-min", &plain, &render_policy(&expiration, &range(file.len() + 1, file.len() + 100), sp), table(), &file).0);
+        {
+            let mut longer = file.clone();
+            longer.extend_from_slice(b"xx");
+            all.push(assemble("policy-length.file-longer-than-max", &plain, &render_policy(&expiration, &range(0, longer.len() - 1), sp), table(), &longer).0);
+        }
+        // ---- (e) a field no condition covers
+        {
+            let mut pl = plain.clone();
+            pl.push(("acl".into(), "public-read".into()));
+            all.push(assemble("policy-uncovered.extra-field", &pl, &base_text, table(), &file).0);
+            let cs = with_conds(&|c| c.retain(|x| !matches!(x, PCond::Eq { field, .. } | PCond::Starts { field, .. } if field.eq_ignore_ascii_case("x-amz-date"))));
+            all.push(assemble("policy-uncovered.condition-dropped", &plain, &render_policy(&expiration, &cs, sp), table(), &file).0);
+        }
+        // ---- (f) base64 that is no policy
+        let conds_json = conds.iter().map(render_cond).collect::<Vec<_>>().join(",");
+        all.push(assemble("policy-malformed.not-json", &plain, "this is not JSON", table(), &file).0);
+        all.push(assemble("policy-malformed.no-expiration", &plain, &format!("{{\"conditions\":[{conds_json}]}}"), table(), &file).0);
+        all.push(assemble("policy-malformed.no-conditions", &plain, &format!("{{\"expiration\":{}}}", json_str(&expiration)), table(), &file).0);
+        all.push(assemble("policy-malformed.expiration-no-instant", &plain, &render_policy("next tuesday", &conds, sp), table(), &file).0);
+        all.push(assemble("policy-malformed.unknown-condition", &plain, &render_policy(&expiration, &with_conds(&|c| c.push(PCond::Raw("[\"ends-with\",\"$key\",\".txt\"]".into()))), sp), table(), &file).0);
+
+        // ---- signature half: one field altered after signing
+        let make = |tag: &str, form: &[(String, String)], table: Vec<(Vec<u8>, Vec<u8>)>| -> Case {
+            let mut c = valid.clone();
+            c.kind = format!("post.{tag}");
+            c.form = form.iter().map(|(n, v)| (n.as_bytes().to_vec(), v.as_bytes().to_vec())).collect();
+            c.table = table;
+            c
+        };
+        let find = |form: &[(String, String)], name: &str| form.iter().position(|(n, _)| n.eq_ignore_ascii_case(name)).unwrap();
+        {
+            let mut with = |tag: &str, name: &str, f: &dyn Fn(&str) -> String| {
+                let mut fm = form.clone();
+                let i = find(&fm, name);
+                fm[i].1 = f(&fm[i].1);
+                all.push(make(tag, &fm, table()));
+            };
+            let other_policy = b64(base_text.replace("up/", "other/").as_bytes());
+            with("mut-policy.other-document", "policy", &|_| other_policy.clone());
+            with("mut-policy.char", "policy", &|v| { let mut b = v.as_bytes().to_vec(); b[3] = if b[3] == b'A' { b'B' } else { b'A' }; String::from_utf8(b).unwrap() });
+            with("mut-policy.not-base64", "policy", &|v| format!("{}*", &v[..v.len() - 1]));
+            for class in 0..4u64 {
+                let r = std::cell::RefCell::new(Rng(rng.next() | 1));
+                with(&format!("mut-signature.{}", ["hexchar", "uppercase", "truncate", "extend"][class as usize]), "x-amz-signature", &|v| flip_hex_char(&mut r.borrow_mut(), v, class));
+            }
+            let other_ak = AUTH_TABLE[1 - akx].0;
+            let next_day = amz_timestamp(unix + 86400)[..8].to_owned();
+            with("mut-credential.other-access-key", "x-amz-credential", &|v| v.replacen(ak, other_ak, 1));
+            with("mut-credential.unknown-access-key", "x-amz-credential", &|v| format!("X{}", &v[1..]));
+            with("mut-credential.date-other-day", "x-amz-credential", &|v| v.replacen(&date8, &next_day, 1));
+            with("mut-credential.region", "x-amz-credential", &|v| v.replacen(region, "ap-south-1", 1));
+            with("mut-credential.service", "x-amz-credential", &|v| v.replacen("/s3/", "/sts/", 1));
+            with("mut-credential.malformed", "x-amz-credential", &|v| v.replacen("aws4_request", "aws4", 1));
+            with("mut-date.other-second", "x-amz-date", &|_| amz_timestamp(unix + 1));
+            with("mut-date.other-day", "x-amz-date", &|_| amz_timestamp(unix + 86400));
+            with("mut-date.malformed", "x-amz-date", &|v| v.replace('T', "t"));
+            with("mut-algorithm", "x-amz-algorithm", &|_| "AWS4-HMAC-SHA512".to_owned());
+        }
         for name in ["policy", "x-amz-algorithm", "x-amz-credential", "x-amz-date", "x-amz-signature"] {
             let mut fm = form.clone();
             let i = find(&fm, name);
             fm.remove(i);
-            all.push(make(&format!("del-field.{name}"), &fm, table(), None));
+            all.push(make(&format!("del-field.{name}"), &fm, table()));
             // a second field of the same name: placed first (ignored) or last (wins)
             let mut fm = form.clone();
             let bogus = (name.to_owned(), "bogus".to_owned());
             if rng.chance(1, 2) {
                 fm.insert(0, bogus);
-                all.push(make(&format!("dup-field-first.{name}"), &fm, table(), None));
+                all.push(make(&format!("dup-field-first.{name}"), &fm, table()));
             } else {
                 fm.push(bogus);
-                all.push(make(&format!("dup-field-last.{name}"), &fm, table(), None));
+                all.push(make(&format!("dup-field-last.{name}"), &fm, table()));
             }
         }
         {
             let mut t = table();
             t[akx].1.push(b'x');
-            all.push(make("mut-secret", &form, t, None));
+            all.push(make("mut-secret", &form, t));
         }
-        // a third of the forms get every mutation, the rest a sample
-        let first = all.remove(0);
-        let mut rest = all;
+        // a third of the forms get every variant, the rest a sample
         if !rng.chance(1, 3) {
-            shuffle(rng, &mut rest);
-            rest.truncate(5);
+            shuffle(rng, &mut all);
+            all.truncate(8);
         }
-        emit(first.fields());
+        emit(valid.fields());
         produced += 1;
-        for c in rest {
+        for c in all {
             emit(c.fields());
             produced += 1;
         }
